@@ -69,7 +69,7 @@ SCHEMAS = {
     ),
     'addl': dict(model='iv', id='ID', cols=['ADDL', 'II'], kinds=['o', 'd', 'da']),
     'evid_addl': dict(
-        model='iv', id='ID', cols=['EVID', 'ADDL', 'II'], kinds=['o', 'd', 'da', 'r', 'Ra']
+        model='iv', id='ID', cols=['EVID', 'ADDL', 'II'], kinds=['o', 'da', 'r', 'Ra']
     ),
     'ss': dict(model='iv', id='ID', cols=['SS'], kinds=['o', 'd', 'ds']),
     'subj_evid': dict(
@@ -248,8 +248,9 @@ def _walk_doseid(recs, expand):
     preceding dose interval; if there is no preceding dose it stays with the (first) dose.
     A steady state dose keeps the records at its time (comment in get_doseid).
     Records of different reset groups (separated by EVID 3/4) are never at "the same time".
-    Returns (doseid list, tad list) indexed by original row; tad None = not specified by the
-    property (no dose yet, or no dose since the last reset).
+    Returns (doseid list, tad list) indexed by original row; a doseid is a tuple of the allowed
+    values; tad None = not specified by the property (no dose yet, no dose since the last
+    reset, or a record at the time of the individual's first dose).
     """
     n = len(recs)
     doseid = [None] * n
@@ -273,20 +274,26 @@ def _walk_doseid(recs, expand):
             if r['dose']:
                 doses.append((t, r['rg'], r['ss'] if not expanded else 0))
                 if not expanded:
-                    doseid[r['row']] = len(doses)
+                    doseid[r['row']] = (len(doses),)
                     tad[r['row']] = 0.0
             else:
+
+                def tied(k):
+                    d = doses[k - 1]
+                    return d[0] == t and d[1] == r['rg'] and not d[2]
+
                 k = len(doses)
-                while (
-                    k > 1
-                    and doses[k - 1][0] == t
-                    and doses[k - 1][1] == r['rg']
-                    and not doses[k - 1][2]
-                ):
+                while k > 1 and tied(k):
                     k -= 1
-                doseid[r['row']] = k
-                if k >= 1 and doses[k - 1][1] == r['rg']:
-                    tad[r['row']] = t - doses[k - 1][0]
+                if k == 1 and tied(1):
+                    # at the time of the individual's first dose there is no preceding dose:
+                    # the docstring rule gives the pre-dose period 0, the code comment keeps the
+                    # record with the first dose; the property does not decide -> either
+                    doseid[r['row']] = (0, 1)
+                else:
+                    doseid[r['row']] = (k,)
+                    if k >= 1 and doses[k - 1][1] == r['rg']:
+                        tad[r['row']] = t - doses[k - 1][0]
     return doseid, tad
 
 
@@ -493,8 +500,8 @@ def _call(ctx, fname, df0, di, **kwargs):
         if not documented:
             ctx.fail(
                 fname,
-                'no internal error (only documented exceptions)',
-                f'{type(raised).__name__}: {raised}',
+                f'no internal error (only documented exceptions) [{type(raised).__name__}]',
+                f'{type(raised).__name__}: {raised}\n{_Lazy(df0)}',
             )
     elif fname in DOCUMENTED_ERRORS and DOCUMENTED_ERRORS[fname](sch):
         ctx.fail(fname, 'DatasetError when no dose column can be identified', f'returned {res!r}')
@@ -623,7 +630,16 @@ def _check_case(case):
     # ---- get_doseid ----------------------------------------------------------------
     res, err = _call(ctx, 'get_doseid', df0, di)
     if err is None and res is not None:
-        ok, why = _series_is(res, ref['doseid'], index=rows, name='DOSEID')
+        ok = isinstance(res, pd.Series)
+        why = f'not a Series: {res!r}'
+        if ok:
+            got = _flist(res.tolist())
+            ok = len(got) == n and all(g in [float(a) for a in allowed]
+                                       for g, allowed in zip(got, ref['doseid']))
+            ok = ok and all(isinstance(v, (int, np.integer)) for v in res.tolist())
+            why = f'values {res.tolist()} allowed {ref["doseid"]}'
+            if ok and (list(res.index) != rows or res.name != 'DOSEID'):
+                ok, why = False, f'index {list(res.index)} name {res.name!r}'
         if not ok:
             ctx.fail(
                 'get_doseid',
@@ -631,6 +647,8 @@ def _check_case(case):
                 + _features(recs, expand=False),
                 f'{why}\n{desc}',
             )
+        elif len(case['ids']) > 1:
+            _check_independent(ctx, 'get_doseid', case, df0, di, res, idname, desc)
 
     # ---- expand_additional_doses ---------------------------------------------------
     for flag in (True, False):
@@ -665,6 +683,8 @@ def _check_case(case):
             'used admid of the individual',
             desc,
         )
+    if err is None and isinstance(res, pd.Series) and len(case['ids']) > 1:
+        _check_independent(ctx, 'get_admid', case, df0, di, res, idname, desc)
     res, err = _call(ctx, 'add_admid', df0, di)
     if err is None:
         _check_added(ctx, 'add_admid', df0, di, res, 'ADMID', 'admid', ref['admid'],
@@ -733,6 +753,28 @@ def _check_case(case):
 
     nontrivial = any(r['dose'] for r in recs) and any(not r['dose'] for r in recs)
     return ctx.fails, nontrivial
+
+
+def _check_independent(ctx, fname, case, df0, di, res, idname, desc):
+    """The derivation is per individual: the values of an individual's records are the ones
+    obtained from the dataset that contains only this individual"""
+    whole = _flist(res.tolist())
+    for idval in case['ids']:
+        sel = [i for i in range(len(df0)) if int(df0[idname][i]) == idval]
+        sub = df0.iloc[sel].reset_index(drop=True)
+        r1, e1 = _call(ctx, fname, sub, di)
+        if e1 is not None or not isinstance(r1, pd.Series):
+            continue  # reported by the clauses on the one-individual datasets
+        alone = _flist(r1.tolist())
+        part = [whole[i] for i in sel]
+        if alone != part:
+            ctx.fail(
+                fname,
+                "the values of an individual's records do not depend on the other individuals "
+                'in the dataset',
+                f'individual {idval}: {part} in the dataset, {alone} alone\n{desc}',
+            )
+            return
 
 
 def _check_partial(ctx, fname, res, expected, name, clause, desc):
